@@ -739,7 +739,17 @@ namespace photon
 
     static void spinlock_unlock(void* m_);
 
+#ifdef PHOTON_VERIF
+    // verification hook (no-op in normal builds): a scheduling point for the
+    // model checker between releasing the run-queue lock and saving the context
+    extern "C" void photon_verif_switch(void* from, void* to);
+    #define PHOTON_VERIF_SWITCH(from, to) photon_verif_switch(from, to)
+#else
+    #define PHOTON_VERIF_SWITCH(from, to)
+#endif
+
     inline void prepare_switch(thread* from, thread* to) {
+        PHOTON_VERIF_SWITCH(from, to);
         assert(from->vcpu == to->vcpu);
         assert(to->state == states::RUNNING);
         auto& cnt = to->get_vcpu()->switch_count;
